@@ -469,6 +469,8 @@ M("C09", "preflight-funnel-narrowed", "iodata/api.py", r"            data = form
 M("C13", "mol2-one-try-around-the-record-loop", F + "mol2.py", r"    while True:\n        try:\n            line = next\(lit\)\n        except StopIteration:\n            break\n        if len\(line\) > 1:\n            words = line\.split\(\)\n            if words\[0\] == \"@<TRIPOS>MOLECULE\":", "    while True:\n        try:\n            line = next(lit)\n            if len(line) > 1 and line.split()[0] == \"@<TRIPOS>BOND\":\n                result[\"bonds\"] = _load_helper_bonds(lit, nbonds)\n                continue\n        except StopIteration:\n            break\n        if len(line) > 1:\n            words = line.split()\n            if words[0] == \"@<TRIPOS>MOLECULE\":", "C13-R13")
 M("C06", "segmentation-remembers-last-result", "iodata/convert.py", r"    return attrs\.evolve\(obasis, shells=shells\)", "    result = attrs.evolve(obasis, shells=shells)\n    _LAST[:] = [obasis, keep_sp, result]\n    return result", "C06-R8", also=[(r"(def convert_to_segmented\([^)]*\)[^\n]*:\n(?:    .*\n|\n)*?    \"\"\"\n)", r"\1    if _LAST and _LAST[0] is obasis and _LAST[1] == keep_sp:\n        return _LAST[2]\n"), (r"\ndef convert_to_segmented", "\n_LAST = []\n\n\ndef convert_to_segmented")])
 
+T("C13", "pdb-record-head-through-helper", F + "pdb.py", r"        try:\n            line = next\(lit\)\n        except StopIteration:\n            break\n        # If the PDB file has a title", "        try:\n            line = _next_record(lit)\n        except StopIteration:\n            break\n        # If the PDB file has a title", also=[(r"\ndef _parse_pdb_conect_line\(line\):", "\ndef _next_record(lit):\n    return next(lit)\n\n\ndef _parse_pdb_conect_line(line):")])
+
 
 def _run_one(args):
     spec, repo = args
